@@ -622,6 +622,7 @@ package spec
 //@ func (*schemaLoader).load
 //@   property C18, C11, C05
 //@   requires wfResolver(r) && refURL != nil
+//@   requires [C18] key-in-reference-canonical-form @@ normHost(refURL.Scheme, refURL.Host) == refURL.Host && dedupSlashes(refURL.Path) == refURL.Path
 //@   assigns  ghost(cacheDom, cacheDoc, calls)
 //@   ensures  [C18] lookup-first @@ old(cacheDom[loadKey(refURL)]) ==> result3 == nil && result2 && result0 == old(cacheDoc[loadKey(refURL)])
 //@   ensures  [C18] never-requested-if-present @@ forall u string :: calls(r.context.loadDoc, u) == old(calls(r.context.loadDoc, u)) + (u == loadKey(refURL) && !old(cacheDom[loadKey(refURL)]) ? 1 : 0)
